@@ -38,7 +38,7 @@ def gen_history(rng, state, length, p_sni=0.3):
 
 def gen_cases(rng, tier):
     cases = []
-    n = 150 if tier == 'quick' else 3000
+    n = 150 if tier == 'quick' else 15000
     # corpus: the overflow history (known finding) and small regression shapes
     st = ml.gen_module(rng, 6)
     cases.append([1, st, [['sni']] * 40])
